@@ -15,13 +15,14 @@ RUNTIME = ["f8utils.cpp", "logger.cpp"]     # all the timer thread needs (Tickva
 PROBES = [("probe_timer", "asan", RUNTIME, [])]
 
 MANIFEST = dict(
-    text='TLC proves NoEarlyFire, DueOrder, RepeatSpacing and ClearSilences on the timer design (queue of (id, due, interval, repeat), Schedule/Advance/Fire-least-due/Clear, arbitrarily late fires) for every interleaving up to the bound, and exports command histories (the transition cover of a small configuration plus simulated behaviours with up to 5 events); each history is replayed on the real Timer<T> thread against a virtual clock (the probe defines clock_gettime; sleeps stay real) with callbacks logging (id, instant the timer thread last read); TLC validates every recorded execution against the property monitor.',
-    note='Trusts TLC, the probe (moves data only), the clock_gettime/clock_nanosleep interposition, ASan/UBSan. Lateness is never a violation. Due-order is demanded only relative to events whose schedule() call had returned before the callback began (a racing insertion cannot be ordered from outside). Delays 1-200 ms as units 1,2,5 times a seeded scale.',
+    text='TLC proves NoEarlyFire, DueOrder, RepeatSpacing and ClearSilences on the timer design (queue of (id, due, interval, repeat), Schedule/Advance/Fire-least-due/Clear, arbitrarily late fires, callbacks that take time) for every interleaving up to the bound, and exports command histories (the transition cover of a small configuration plus simulated behaviours with up to 5 events); each history is replayed on the real Timer<T> thread against a virtual clock (the probe defines clock_gettime; sleeps stay real) with callbacks logging (id, instant the timer thread last read, clock inside the callback) and optionally moving the clock on (slow callbacks); TLC validates every recorded execution against the property monitor.',
+    note='Executions in which the driver moves the clock only while the timer thread is settled (all those with slow callbacks, plus a share of the others) are exact: the clock read inside the callback is the instant the run began and is what the monitor judges; in the racing executions the only sound instant is the one the thread last read. Trusts TLC, the probe (moves data only), the clock_gettime/clock_nanosleep interposition, ASan/UBSan. Lateness is never a violation. Due-order is demanded only relative to events whose schedule() call had returned before the callback began (a racing insertion cannot be ordered from outside). Delays 1-200 ms as units 1,2,5 times a seeded scale.',
     tech='TLA+ design spec + TLC exhaustive check; transition-cover and simulated command histories replayed on the real timer thread with a virtual clock; TLC trace validation',
     ref='3 (virtual clock seam), 5.7, 6 C31')
 
 DEVS = [("MC_Timer_dev_any_due.cfg", "DueOrder"), ("MC_Timer_dev_early.cfg", "NoEarlyFire"),
         ("MC_Timer_dev_repeat_from_due.cfg", "RepeatSpacing"), ("MC_Timer_dev_clear_keeps_one.cfg", "ClearSilences"),
+        ("MC_Timer_dev_stale_now.cfg", "RepeatSpacing"),
         ("MC_Timer_reach1.cfg", "Reach_RepeatTwice"), ("MC_Timer_reach2.cfg", "Reach_LateFire")]
 
 
@@ -35,11 +36,17 @@ def maximal(hists):
     return [[json.loads(c) for c in x] for x in sorted(S) if x not in pre]
 
 
-def commands(hist, scale, rng, nowait):
-    out = ["new 1"]
+def commands(hist, scale, rng, nowait, exact=None):
+    """exact (default: whenever a callback takes time): every advance is waited for, so the clock moves only while the
+    timer thread is settled and the monitor may use the clock read inside the callback as the instant it began."""
+    if exact is None:
+        exact = any(c["c"] == "sched" and c.get("slow", 0) for c in hist)
+    if exact:
+        nowait = 0
+    out = ["new 1 exact" if exact else "new 1"]
     for c in hist:
         if c["c"] == "sched":
-            out.append("sched %d %d %d %d" % (c["id"], c["delay"] * scale, 1 if c["rep"] else 0, c["q"]))
+            out.append("sched %d %d %d %d %d" % (c["id"], c["delay"] * scale, 1 if c["rep"] else 0, c["q"], c.get("slow", 0) * scale))
         elif c["c"] == "adv":
             out.append("adv %d %d" % (c["d"] * scale, 0 if rng.random() < nowait else 1))
         elif c["c"] == "clear":
@@ -95,6 +102,11 @@ def models(ctx):
     if not r["ok"]:
         raise core.Infra("timer design violates %s: the model is wrong" % r["violated"])
     ctx.add_model(r, "MC_Timer.tla", cfg, ["NoEarlyFire", "DueOrder", "RepeatSpacing", "ClearSilences"])
+    # the same with callbacks that take time (the clock moves while they run)
+    r = tlc.check("MC_Timer.tla", "MC_Timer_slow.cfg", workers=8, timeout=3000, heap="12g")
+    if not r["ok"]:
+        raise core.Infra("timer design with slow callbacks violates %s: the model is wrong" % r["violated"])
+    ctx.add_model(r, "MC_Timer.tla", "MC_Timer_slow.cfg", ["NoEarlyFire", "DueOrder", "RepeatSpacing", "ClearSilences"])
     ctx.exhaustive = True
     with ThreadPoolExecutor(max_workers=3) as ex:
         res = list(ex.map(lambda d: tlc.check("MC_Timer.tla", d[0], workers=2, timeout=600, heap="4g"), DEVS))
@@ -104,15 +116,15 @@ def models(ctx):
         ctx.add_model(r, "MC_Timer.tla", c, ["must violate " + inv])
 
 
-def sim(ctx, num, seed):
-    r = tlc.check("MC_Timer.tla", "MC_Timer_sim.cfg", workers=1, timeout=900,
+def sim(ctx, num, seed, cfg="MC_Timer_sim.cfg"):
+    r = tlc.check("MC_Timer.tla", cfg, workers=1, timeout=900,
                   extra=["-simulate", "num=%d" % num, "-depth", "80", "-seed", str(seed)])
     if not r["ok"]:
         raise core.Infra("simulation violates %s: the timer model is wrong" % r["violated"])
     m = re.search(r"(\d+) states checked, (\d+) traces generated", r["out"])
     if m:
         r["stats"] = {"generated": int(m.group(1)), "distinct": int(m.group(1)), "queue": 0, "depth": 0}
-    ctx.add_model(r, "MC_Timer.tla", "MC_Timer_sim.cfg (-simulate num=%d seed=%d)" % (num, seed),
+    ctx.add_model(r, "MC_Timer.tla", "%s (-simulate num=%d seed=%d)" % (cfg, num, seed),
                   ["NoEarlyFire", "DueOrder", "RepeatSpacing", "ClearSilences", "behaviour export"])
     return tlc.leaves(r["out"])
 
@@ -148,6 +160,16 @@ def run(ctx):
     if len(cover) < 1000:
         raise core.Infra("transition cover export produced only %d histories" % len(cover))
     sims = maximal(sim(ctx, 300 if ctx.quick else 6000, ctx.seed))
+    # callbacks that take time: transition cover of a small configuration and simulated behaviours; the histories in
+    # which a callback is slow run with every advance waited for (exact executions)
+    r = tlc.check("MC_Timer.tla", "MC_Timer_export_slow.cfg", workers=1, timeout=900)
+    if not r["ok"]:
+        raise core.Infra("slow export run violates %s" % r["violated"])
+    ctx.add_model(r, "MC_Timer.tla", "MC_Timer_export_slow.cfg", ["transition cover export"])
+    slowcover = [h for h in maximal(tlc.leaves(r["out"])) if any(c.get("slow", 0) for c in h)]
+    if len(slowcover) < 500:
+        raise core.Infra("slow-callback export produced only %d histories" % len(slowcover))
+    slowsims = [h for h in maximal(sim(ctx, 200 if ctx.quick else 4000, ctx.seed + 1, "MC_Timer_sim_slow.cfg")) if any(c.get("slow", 0) for c in h)]
     ctx.tick("schedules")
     scheds = []
     if ctx.quick:
@@ -160,6 +182,16 @@ def run(ctx):
         scheds.append(commands(h, rng.choice([1, 3, 10, 40]), rng, 0.15))
     for h in sims:
         scheds.append(commands(h, rng.choice([1, 2, 5, 20, 40]), rng, 0.3))
+    rng.shuffle(slowcover)
+    slow_run = slowcover[:500] if ctx.quick else slowcover
+    for h in slow_run:
+        scheds.append(commands(h, rng.choice([1, 3, 10, 40]), rng, 0))
+    for h in slowsims:
+        scheds.append(commands(h, rng.choice([1, 2, 5, 20]), rng, 0))
+    # and a seeded share of the histories without slow callbacks once more as exact executions
+    for h in cover_run[:150 if ctx.quick else 2000]:
+        scheds.append(commands(h, rng.choice([1, 3, 10]), rng, 0, exact=True))
+    ctx.extra["exact_executions"] = len(slow_run) + len(slowsims) + (150 if ctx.quick else min(2000, len(cover_run)))
     execs, aborts = run_scheds(ctx, binary, scheds)
     ctx.tick("probe")
     done = [i for i, e in enumerate(execs) if e is not None]
@@ -190,7 +222,8 @@ def run(ctx):
         selftest(ctx)
     ctx.trusted = ["TLC", "probe_timer (moves data only)", "clock_gettime / clock_nanosleep interposition (virtual clock seam)",
                    "ASan/UBSan"]
-    ctx.assumptions = ["time observed at the callback = the instant the timer thread last read from the clock",
+    ctx.assumptions = ["racing executions: time observed at the callback = the instant the timer thread last read from the clock; "
+                       "exact executions: = the clock read inside the callback",
                        "delays are multiples of a seeded scale (1..40 ms) times 1, 2 or 5"]
 
 
